@@ -204,6 +204,41 @@ theorem mapM_ok {α β : Type} (f : α → Res β) (g : α → β) :
     rw [List.mapM_cons, h a (List.mem_cons_self), ih (fun x hx => h x (List.mem_cons_of_mem a hx))]
     rfl
 
+theorem mapM_ok_getElem {α β : Type} (f : α → Res β) :
+    ∀ (l : List α) (r : List β), l.mapM f = .ok r →
+      r.length = l.length ∧ ∀ i (hi : i < l.length) (hr : i < r.length), f l[i] = .ok r[i] := by
+  intro l
+  induction l with
+  | nil =>
+    intro r h
+    rw [List.mapM_nil] at h
+    injection h with h; subst h
+    exact ⟨rfl, fun i hi => absurd hi (by simp)⟩
+  | cons a l ih =>
+    intro r h
+    rw [List.mapM_cons] at h
+    cases hfa : f a with
+    | ok b =>
+      rw [hfa] at h
+      cases hl : l.mapM f with
+      | ok r' =>
+        rw [hl] at h
+        have : r = b :: r' := by
+          have h' : (Res.ok (b :: r') : Res (List β)) = .ok r := h
+          injection h' with h'; exact h'.symm
+        subst this
+        obtain ⟨hlen, hget⟩ := ih r' hl
+        refine ⟨by simp [hlen], fun i hi hr => ?_⟩
+        cases i with
+        | zero => simpa using hfa
+        | succ i => simpa using hget i (by simpa using hi) (by simpa using hr)
+      | err => rw [hl] at h; cases h
+      | panic => rw [hl] at h; cases h
+      | outOfFuel => rw [hl] at h; cases h
+    | err => rw [hfa] at h; cases h
+    | panic => rw [hfa] at h; cases h
+    | outOfFuel => rw [hfa] at h; cases h
+
 theorem extract_eq_map_range' {α : Type} (L : List α) (d : α) (s e : Nat) (he : e ≤ L.length) :
     L.extract s e = (List.range' s (e - s)).map (fun i => L[i]?.getD d) := by
   apply List.ext_getElem?
